@@ -873,3 +873,251 @@ Proof.
   - destruct ok; cbn [negb]; [|reflexivity]. destruct (exec_pieces rd ps); lia.
   - reflexivity.
 Qed.
+
+(** * From a stream to its reads *)
+
+(** [rd] is a file cache over [stream]: a read inside the stream succeeds and
+    delivers the stream's bytes (nothing is assumed about reads past its end) *)
+Definition reads_stream (rd : Z -> N -> rd_res) (stream : bytes) : Prop :=
+  forall p n, (0 <= p)%Z -> Z.to_N p + n <= N.of_nat (length stream) ->
+              rd p n = RdOk (firstn (N.to_nat n) (skipn (N.to_nat (Z.to_N p)) stream)).
+
+Definition open_ok (res : open_res) (fm : fmap) (o : list bool) : Prop :=
+  (all_true o -> res = OpenFlat (InitDone ST_OK fm)) /\
+  (res = OpenFlat (InitDone ST_OK fm) \/ res = OpenFlat InitNoMap \/
+   exists fm', res = OpenFlat (InitDone ST_SYSTEM fm')).
+
+Lemma encode_shape recs trailer :
+  encode recs ++ trailer = flat_header ++ flat_map enc_rec recs ++ END_MARK ++ trailer.
+Proof. unfold encode, END_MARK. now rewrite <- !app_assoc. Qed.
+
+Lemma header_checks :
+  let h := firstn 32 flat_header in
+  length h = 32%nat /\ bytes_eqb (firstn 16 h) MDF_SIG = true /\
+  be64 (firstn 8 (skipn 16 h)) = 1 /\ be64 (skipn 24 h) = 1.
+Proof. vm_compute. repeat split. Qed.
+
+Lemma init_stream recs trailer rd fuel :
+  let stream := encode recs ++ trailer in
+  Forall wf_rec recs ->
+  N.of_nat (length stream) <= OFF_LIMIT ->
+  N.of_nat (length recs) <= METH_LIMIT ->
+  reads_stream rd stream ->
+  (length recs < fuel)%nat ->
+  exists fm, Inv stream recs (fm_map fm) (fm_offs fm) /\
+    forall oracle, open_ok (flatmap_init_file rd fuel oracle) fm oracle.
+Proof.
+  intros stream Hwf Hlen Hmeth Hrd Hfuel.
+  assert (Hrd' : forall p n, (0 <= p)%Z -> Z.to_N p + n <= N.of_nat (length stream) ->
+                             rd p n = RdOk (sl stream (Z.to_N p) n)) by exact Hrd.
+  pose proof (encode_shape recs trailer) as Hshape. fold stream in Hshape.
+  destruct (init_loop_encode stream rd Hlen Hrd' recs [] [] [] 0 fuel flat_header trailer)
+    as (fm & HI & Hgood).
+  - apply Inv_nil.
+  - exact Hwf.
+  - exact Hshape.
+  - reflexivity.
+  - exact Hmeth.
+  - exact Hfuel.
+  - exists fm. cbn [app] in HI. split; [exact HI|]. intros oracle.
+    (* the signature, type and version checks *)
+    destruct header_checks as (Hl & Hsig & Hty & Hver).
+    set (h := firstn 32 flat_header) in *.
+    assert (Hs0 : stream = [] ++ h ++ (skipn 32 flat_header ++ flat_map enc_rec recs ++ END_MARK ++ trailer)).
+    { rewrite Hshape. cbn [app]. unfold h.
+      rewrite (app_assoc (firstn 32 flat_header)), firstn_skipn. reflexivity. }
+    pose proof (rd_at stream rd Hlen Hrd' [] h _ Hs0) as Hh. rewrite Hl in Hh. cbn [length] in Hh.
+    change (Z.of_nat 0) with 0%Z in Hh. change (N.of_nat 32) with 32 in Hh.
+    unfold flatmap_init_file. rewrite Hh, Hsig, Hty, Hver. cbn [negb N.eqb Pos.eqb].
+    unfold file_init.
+    destruct (next_alloc_cases oracle) as [(o' & -> & Ho')|(o' & -> & Ho')]; cbn [negb].
+    + rewrite flat_header_length in Hgood. change (N.of_nat (length (@nil rec))) with 0 in Hgood.
+      change (Z.of_nat 4096) with FlatModel.MDF_HEADER_SIZE in Hgood.
+      destruct (Hgood o') as [G1 G2]. split.
+      * intros Ho. now rewrite G1 by (apply Ho', Ho).
+      * destruct G2 as [->|(fm' & ->)]; [now left|right; right; now exists fm'].
+    + split; [intros Ho; now destruct Ho'|right; now left].
+Qed.
+
+(** If [flatmap_init] accepted the stream with some map, it is the map that
+    satisfies the invariant. *)
+Lemma open_ok_unique res fm o fm1 :
+  open_ok res fm o -> res = OpenFlat (InitDone ST_OK fm1) -> fm1 = fm.
+Proof.
+  intros [_ [E|[E|(fm' & E)]]] H; rewrite H in E; [now injection E|discriminate|].
+  injection E as E _. discriminate.
+Qed.
+
+(** * Theorems exported to [Properties_C11] *)
+
+Definition stream_ok (recs : list rec) (trailer : bytes) : Prop :=
+  Forall wf_rec recs /\
+  N.of_nat (length (encode recs ++ trailer)) <= OFF_LIMIT /\
+  N.of_nat (length recs) <= METH_LIMIT.
+
+Lemma opened_inv recs trailer rd fuel oracle fm :
+  stream_ok recs trailer ->
+  reads_stream rd (encode recs ++ trailer) -> (length recs < fuel)%nat ->
+  flatmap_init_file rd fuel oracle = OpenFlat (InitDone ST_OK fm) ->
+  Inv (encode recs ++ trailer) recs (fm_map fm) (fm_offs fm).
+Proof.
+  intros (Hwf & Hlen & Hm) Hrd Hfuel Hopen.
+  destruct (init_stream recs trailer rd fuel Hwf Hlen Hm Hrd Hfuel) as (fm0 & HI & Hok).
+  now rewrite (open_ok_unique _ _ _ _ (Hok oracle) Hopen).
+Qed.
+
+Theorem init_succeeds recs trailer rd fuel :
+  stream_ok recs trailer ->
+  reads_stream rd (encode recs ++ trailer) -> (length recs < fuel)%nat ->
+  exists fm, forall oracle, open_ok (flatmap_init_file rd fuel oracle) fm oracle.
+Proof.
+  intros (Hwf & Hlen & Hm) Hrd Hfuel.
+  destruct (init_stream recs trailer rd fuel Hwf Hlen Hm Hrd Hfuel) as (fm0 & HI & Hok).
+  now exists fm0.
+Qed.
+
+Theorem pread_is_rearranged recs trailer rd fuel oracle fm pos len :
+  stream_ok recs trailer ->
+  reads_stream rd (encode recs ++ trailer) -> (length recs < fuel)%nat ->
+  flatmap_init_file rd fuel oracle = OpenFlat (InitDone ST_OK fm) ->
+  pos + len <= OFF_LIMIT ->
+  flatmap_pread rd (Some fm) (Z.of_N pos) len = POk (slice (rearrange recs) pos len).
+Proof.
+  intros Hs Hrd Hfuel Hopen Hl. pose proof (opened_inv _ _ _ _ _ _ Hs Hrd Hfuel Hopen) as HI.
+  destruct Hs as (_ & Hlen & _). destruct fm as [m offs]. cbn [flatmap_pread fm_map fm_offs] in *.
+  now apply pread_flat_ok with (stream := encode recs ++ trailer).
+Qed.
+
+Theorem chunk_eq_pread recs trailer rd gc fuel oracle fm pos len :
+  stream_ok recs trailer ->
+  reads_stream rd (encode recs ++ trailer) -> (length recs < fuel)%nat ->
+  (forall p n, gc p n = rd p n) ->
+  flatmap_init_file rd fuel oracle = OpenFlat (InitDone ST_OK fm) ->
+  pos + len <= OFF_LIMIT ->
+  exists n, n <= 1 /\
+    flatmap_get_chunk rd gc (Some fm) (Z.of_N pos) len true
+    = (flatmap_pread rd (Some fm) (Z.of_N pos) len, n) /\
+    flatmap_pread rd (Some fm) (Z.of_N pos) len = POk (slice (rearrange recs) pos len).
+Proof.
+  intros Hs Hrd Hfuel Hgc Hopen Hl.
+  pose proof (pread_is_rearranged _ _ _ _ _ _ _ _ Hs Hrd Hfuel Hopen Hl) as Hp.
+  pose proof (opened_inv _ _ _ _ _ _ Hs Hrd Hfuel Hopen) as HI.
+  destruct Hs as (_ & Hlen & _). destruct fm as [m offs]. cbn [flatmap_get_chunk fm_map fm_offs] in *.
+  destruct (get_chunk_flat_ok (encode recs ++ trailer) rd Hlen Hrd gc Hgc recs m offs pos len HI Hl)
+    as (n & E & Hn).
+  exists n. split; [exact Hn|]. split; [|exact Hp]. now rewrite Hp.
+Qed.
+
+(** no out-of-bounds access, no overflow - also when the file cache fails
+    reads at will and the allocation of the chunk buffer fails *)
+Theorem chunk_no_ub recs trailer rd fuel oracle fm rd' gc' pos len ok why :
+  stream_ok recs trailer ->
+  reads_stream rd (encode recs ++ trailer) -> (length recs < fuel)%nat ->
+  flatmap_init_file rd fuel oracle = OpenFlat (InitDone ST_OK fm) ->
+  pos + len <= OFF_LIMIT ->
+  fst (flatmap_get_chunk rd' gc' (Some fm) (Z.of_N pos) len ok) <> PUB why /\
+  flatmap_pread rd' (Some fm) (Z.of_N pos) len <> PUB why.
+Proof.
+  intros Hs Hrd Hfuel Hopen Hl.
+  pose proof (opened_inv _ _ _ _ _ _ Hs Hrd Hfuel Hopen) as HI.
+  destruct Hs as (_ & Hlen & _). destruct fm as [m offs]. cbn [flatmap_get_chunk flatmap_pread fm_map fm_offs] in *.
+  split.
+  - apply get_chunk_flat_no_ub with (stream := encode recs ++ trailer) (rd := rd) (gc := rd) (done := recs);
+      try assumption. reflexivity.
+  - apply pread_flat_no_ub with (stream := encode recs ++ trailer) (rd := rd) (done := recs);
+      assumption.
+Qed.
+
+Theorem chunk_balance rd gc fm pos len ok :
+  match flatmap_get_chunk rd gc fm pos len ok with
+  | (POk _, n) => n <= 1
+  | (_, n) => n = 0
+  end.
+Proof.
+  destruct fm as [f|]; cbn [flatmap_get_chunk].
+  - apply exec_chunk_balance.
+  - destruct (gc pos len); lia.
+Qed.
+
+(** ** Segmentations of a plain file *)
+
+Lemma fold_write_value recs v x : forall f,
+  (forall r, In r recs -> covers r x = true -> nth (N.to_nat (x - r_pos r)) (r_data r) 0 = v) ->
+  (f x = v \/ exists r, In r recs /\ covers r x = true) ->
+  fold_left write recs f x = v.
+Proof.
+  induction recs as [|r recs IH]; intros f Hagree Hcov; cbn [fold_left].
+  - destruct Hcov as [H|(r & [] & _)]. exact H.
+  - apply IH.
+    + intros r' Hin. apply Hagree. now right.
+    + unfold write at 1. destruct (covers r x) eqn:Ec.
+      * left. apply Hagree; [now left|exact Ec].
+      * destruct Hcov as [H|(r' & [<-|Hin] & Hc)].
+        -- now left.
+        -- rewrite Hc in Ec. discriminate.
+        -- right. now exists r'.
+Qed.
+
+Theorem rearrange_segmentation b recs :
+  segmentation_of b recs -> forall x, rearrange recs x = plain_file b x.
+Proof.
+  intros [Hagree Hcover] x. unfold rearrange. apply fold_write_value.
+  - intros r Hin Hc. now apply (proj2 (Hagree r Hin)).
+  - destruct (N.lt_ge_cases x (N.of_nat (length b))) as [Hlt|Hge].
+    + right. now apply Hcover.
+    + left. unfold zero_file, plain_file. symmetry. apply nth_overflow. lia.
+Qed.
+
+Lemma slice_ext f g pos len : (forall x, f x = g x) -> slice f pos len = slice g pos len.
+Proof. intros H. unfold slice. apply map_ext. exact H. Qed.
+
+Lemma take0_skipn_plain b : forall n p,
+  take0 n (skipn p b) = List.map (plain_file b) (nseq (N.of_nat p) n).
+Proof.
+  induction n as [|n IH]; intros p; [reflexivity|].
+  cbn [nseq List.map]. replace (N.of_nat p + 1) with (N.of_nat (S p)) by lia. rewrite <- IH.
+  unfold plain_file at 1. rewrite Nnat.Nat2N.id.
+  destruct (skipn p b) as [|x t] eqn:E.
+  - assert (Hl : (length b <= p)%nat).
+    { assert (H : length (skipn p b) = 0%nat) by now rewrite E. rewrite skipn_length in H. lia. }
+    rewrite nth_overflow by exact Hl. rewrite skipn_all2 by lia. reflexivity.
+  - cbn [take0]. rewrite (skipn_S_tl b p x t E). f_equal.
+    rewrite <- (firstn_skipn p b) at 1.
+    assert (Hl : (p < length b)%nat).
+    { destruct (Nat.lt_ge_cases p (length b)) as [H|H]; [exact H|]. rewrite skipn_all2 in E by exact H. discriminate. }
+    rewrite app_nth2; rewrite firstn_length_le by lia; [|lia].
+    rewrite Nat.sub_diag, E. reflexivity.
+Qed.
+
+Lemma slice0_plain b pos len : slice0 b pos len = slice (plain_file b) pos len.
+Proof.
+  unfold slice0, slice. destruct (N.leb_spec (N.of_nat (length b)) pos) as [H|H].
+  - unfold zeros. symmetry. rewrite zeros_map; [now rewrite nseq_length|].
+    intros x Hx. apply in_nseq in Hx as (k & _ & ->). unfold plain_file. apply nth_overflow. lia.
+  - rewrite take0_skipn_plain. now rewrite Nnat.N2Nat.id.
+Qed.
+
+(** A segmentation of a plain file, flattened in any order and granularity,
+    reads exactly like the plain file (read through the same dispatch
+    function, with the plain file's own cache). *)
+Theorem plain_equiv b recs trailer rd fuel oracle fm pos len :
+  segmentation_of b recs ->
+  stream_ok recs trailer ->
+  reads_stream rd (encode recs ++ trailer) -> (length recs < fuel)%nat ->
+  flatmap_init_file rd fuel oracle = OpenFlat (InitDone ST_OK fm) ->
+  pos + len <= OFF_LIMIT -> 0 < len ->
+  flatmap_pread rd (Some fm) (Z.of_N pos) len
+  = flatmap_pread (file_rd {| pf_bytes := b; pf_fail := None; pf_failst := 0 |}) None (Z.of_N pos) len
+  \/ OFF_LIMIT - 4096 < pos + len.
+Proof.
+  intros Hseg Hs Hrd Hfuel Hopen Hl Hlen.
+  destruct (N.lt_ge_cases (OFF_LIMIT - 4096) (pos + len)) as [Hbig|Hsmall]; [now right|left].
+  rewrite (pread_is_rearranged _ _ _ _ _ _ _ _ Hs Hrd Hfuel Hopen Hl).
+  cbn [flatmap_pread]. unfold file_rd. cbn [pf_fail pf_bytes].
+  destruct (N.eqb_spec len 0); [lia|].
+  unfold OFF_LIMIT, OFF_MAX in *.
+  destruct (Z.ltb_spec (Z.of_N pos) 0); [lia|].
+  destruct (Z.ltb_spec (9223372036854775807 - 4095) (Z.of_N pos + Z.of_N len)); [lia|].
+  cbn [orb]. rewrite N2Z.id, slice0_plain. f_equal.
+  apply slice_ext. now apply rearrange_segmentation.
+Qed.
